@@ -7,6 +7,7 @@ pub mod c07;
 pub mod c08;
 pub mod c09;
 pub mod c10;
+pub mod c11;
 pub mod c12;
 pub mod c13;
 pub mod c14;
@@ -28,6 +29,7 @@ pub fn run(cfg: RunCfg, verif_dir: &str) -> i32 {
         "C08" => c08::run(&mut run),
         "C09" => c09::run(&mut run),
         "C10" => c10::run(&mut run),
+        "C11" => c11::run(&mut run),
         "C12" => c12::run(&mut run),
         "C13" => c13::run(&mut run),
         "C14" => c14::run(&mut run),
@@ -51,6 +53,7 @@ pub fn replay(id: &str, suite: &str, path: &str) -> Result<(), String> {
         "C08" => c08::replay(suite, path),
         "C09" => c09::replay(suite, path),
         "C10" => c10::replay(suite, path),
+        "C11" => c11::replay(suite, path),
         "C12" => c12::replay(suite, path),
         "C13" => c13::replay(suite, path),
         "C14" => c14::replay(suite, path),
